@@ -156,10 +156,14 @@ fn build_exchange(case: &MockCase, s: &Setup, request_rx: mpsc::UnboundedReceive
         .instruments
         .iter()
         .map(|(name, b, q)| {
-            (
-                name.clone(),
-                Instrument::spot(ExchangeId::Mock, format!("mock-{name}"), name.clone(), Underlying { base: s.assets[*b].clone(), quote: s.assets[*q].clone() }, None),
-            )
+            // the price-denomination flag of an instrument is configuration the exchange copies through
+            // unchanged; it does not decide which asset an order spends (a buy spends the underlying's
+            // quote asset, a sell its base asset): every other instrument is configured `UnderlyingBase`
+            let mut instrument = Instrument::spot(ExchangeId::Mock, format!("mock-{name}"), name.clone(), Underlying { base: s.assets[*b].clone(), quote: s.assets[*q].clone() }, None);
+            if (*b + *q) % 2 == 1 {
+                instrument.quote = barter_instrument::instrument::quote::InstrumentQuoteAsset::UnderlyingBase;
+            }
+            (name.clone(), instrument)
         })
         .collect();
     MockExchange::new(config, request_rx, event_tx, instruments)
